@@ -87,6 +87,7 @@ func (obj *StandardObject) setSlot(s *slip.Scope, sd *SlotDef, value slip.Object
 	}
 	if owner := obj.Type.classSlotOwners()[sd.name]; owner != nil {
 		_ = owner.SetSlotValue(slip.Symbol(sd.name), value)
+		owner.slotDefMap()[sd.name].classInit = true
 	} else {
 		obj.vars[sd.name] = value
 	}
